@@ -50,6 +50,28 @@ Proof.
 Qed.
 Print Assumptions C02_saturate_side_float.
 
+(* ... and for words of ANY length up to 960 bits (fix b7d5946: a bound of more than 53 bits is not a double; floats that can
+   reach it are compared and clamped as integers): every finite double, in arrays of any length, is stored as
+   sat(round(v * 2^n_frac)) — in range, the bound on the value's own side — with the exact overflow / underflow conditions *)
+Theorem C02_saturate_side_float_any_width : forall f r vs,
+  1 <= nw f <= 960 -> 0 <= nf f <= 960 -> Forall dbl vs ->
+  exists w, set_val_real f r Saturate false (AF64 (map (fun v => Fin (dm v) (de v)) vs)) VFloat = Ok w /\
+    w_codes w = map (quantize f r Saturate) vs /\ Forall (in_range f) (w_codes w) /\
+    w_ovf w = existsb (ovf_cond f r) vs /\ w_unf w = existsb (unf_cond f r) vs.
+Proof.
+  intros f r vs Hw Hf Hv. destruct (set_val_floats_saturate_any_width f r vs Hw Hf Hv) as (w & H & Hc & Hg & Hl).
+  exists w. repeat split; try assumption. rewrite Hc.
+  apply Forall_forall. intros c Hin. apply in_map_iff in Hin. destruct Hin as (v & <- & _).
+  apply (overflow_in_range Saturate f). lia.
+Qed.
+Print Assumptions C02_saturate_side_float_any_width.
+
+(* the value upper + 1 LSB of a 63-bit word, after an in-range element: the maximum code, flagged (it was stored as 2^62 before the fix) *)
+Example C02_wide_float_example :
+  exists w, set_val_real {| sg := true; nw := 63; nf := 62 |} Trunc Saturate false (AF64 [Fin 1 (-1); Fin 1 0]) VFloat = Ok w /\
+            w_codes w = [2^61; 2^62 - 1] /\ w_ovf w = true.
+Proof. eexists. vm_compute. repeat split; reflexivity. Qed.
+
 Example C02_nonvacuous :
   exists w, set_val_real {| sg := true; nw := 8; nf := 4 |} Trunc Saturate false (pyint_arr (- 2^1000)) VInt = Ok w /\
             w_codes w = [-128] /\ w_unf w = true.
